@@ -33,9 +33,10 @@ type c17Zone struct {
 }
 
 type c17Stamp struct {
-	Unix      int64  `json:"unix"`
-	OffsetSec int    `json:"zone_offset_seconds"`
-	Location  string `json:"location,omitempty"` // IANA name: a civil time zone with daylight saving rules
+	Unix      int64        `json:"unix"`
+	OffsetSec int          `json:"zone_offset_seconds"`
+	Location  string       `json:"location,omitempty"`    // IANA name: a civil time zone with daylight saving rules
+	Env       clockSetting `json:"environment,omitempty"` // what the library's reads of the clock / local zone return
 }
 
 type c17Name struct {
@@ -168,7 +169,16 @@ func c17ZoneExec(c *core.Ctx, in c17Zone) {
 }
 
 func c17StampExec(c *core.Ctx, in c17Stamp) {
-	c.Distinct(core.Hash64("stamp", uint64(in.Unix), in.OffsetSec, in.Location), true)
+	if in.Env != (clockSetting{}) {
+		env := in.Env
+		withClock(env, func() { c17StampExec1(c, in) })
+		return
+	}
+	c17StampExec1(c, in)
+}
+
+func c17StampExec1(c *core.Ctx, in c17Stamp) {
+	c.Distinct(core.Hash64("stamp", uint64(in.Unix), in.OffsetSec, in.Location, in.Env.Now, in.Env.Local), true)
 	loc := time.FixedZone("x", in.OffsetSec)
 	if in.Location != "" {
 		l, err := c17Location(in.Location)
@@ -451,6 +461,39 @@ func c17Run(c *core.Ctx) {
 			}
 		}
 	}
+	// the environment: fixed-offset stamps whose offset is one of the process-local zone's own offsets, dated in both
+	// seasons and before rule changes, under every combination of process-local zone and clock answer (a decoder that
+	// consults the local zone or the current time for a matching offset is wrong exactly there)
+	{
+		locals := []string{"Europe/Berlin", "America/New_York", "Europe/Istanbul", "Australia/Lord_Howe", "UTC"}
+		nows := []string{"2026-01-15T12:00:00.000000000Z", "2026-07-15T12:00:00.000000000Z"}
+		dates := []time.Time{time.Date(2010, 1, 15, 12, 0, 1, 0, time.UTC), time.Date(2023, 1, 15, 23, 59, 59, 0, time.UTC), time.Date(2023, 7, 15, 0, 0, 0, 0, time.UTC), time.Date(2040, 10, 31, 1, 30, 0, 0, time.UTC)}
+		for li, local := range locals {
+			if !c.Mine(li + 11) {
+				continue
+			}
+			if !c.Begin("stamps-env", "UniversalTime", map[string]string{"process_local_zone": local}) {
+				continue
+			}
+			offs := map[int]bool{0: true, 3600: true}
+			if l, err := c17Location(local); err == nil {
+				for _, d := range append(append([]time.Time{}, dates...), time.Date(2026, 1, 15, 12, 0, 0, 0, time.UTC), time.Date(2026, 7, 15, 12, 0, 0, 0, time.UTC)) {
+					_, o := d.In(l).Zone()
+					if o%900 == 0 {
+						offs[o] = true
+					}
+				}
+			}
+			for _, now := range append([]string{""}, nows...) {
+				for o := range offs {
+					for _, d := range dates {
+						c17StampExec(c, c17Stamp{Unix: d.Unix(), OffsetSec: o, Env: clockSetting{Now: now, Local: local}})
+						n++
+					}
+				}
+			}
+		}
+	}
 	// names: all lengths 0..64 with patterns; per-position all 128 septet values for lengths <= 17
 	for l := 0; l <= 64; l++ {
 		if !c.Mine(l) {
@@ -509,7 +552,7 @@ func init() {
 		ID: "C17", Level: "exploration", Run: c17Run,
 		Shards: func(string) int { return 16 },
 		Rule: func(string) string {
-			return "complete enumeration: every duration 0..1 116 000 s (timer 3) and 0..11 160 s (timer 2); all 65 536 AMBR values x 5 units x 2 directions; all 159 quarter-hour zones x DST 0/1/2 inside the stated domain; every day of 2000-2099 at 00:00:00 and 23:59:59 in 5 fixed zones, every second of 4 days in 5 zones, and 21 civil time zones (embedded tz database; DST rules west and east of Greenwich, half-hour rules, zones whose standard offset changed) as ordered sequences in one process: every day of 4 years at noon, every hour of the transition months, one instant every 45 days over 2000-2040 forwards and backwards; four zones again with the process-local zone (time.Local) set west and east of Greenwich; names of every length 0..64 with 4 patterns and every septet value at every position for lengths <= 17, both name functions. Oracle: unit tables of TS 24.008 10.5.7.4/10.5.7.4a (decode(encode(d)) = d for representable d, <= d always), Table 9.11.4.14.1 unit codes and 16-bit big-endian values, semi-octet BCD time coding with sign bit, GSM 7-bit unpacking per TS 23.038 returning exactly the name's septets from ceil(7n/8) octets with (8 - 7n mod 8) mod 8 spare bits."
+			return "complete enumeration: every duration 0..1 116 000 s (timer 3) and 0..11 160 s (timer 2); all 65 536 AMBR values x 5 units x 2 directions; all 159 quarter-hour zones x DST 0/1/2 inside the stated domain; every day of 2000-2099 at 00:00:00 and 23:59:59 in 5 fixed zones, every second of 4 days in 5 zones, and 21 civil time zones (embedded tz database; DST rules west and east of Greenwich, half-hour rules, zones whose standard offset changed) as ordered sequences in one process: every day of 4 years at noon, every hour of the transition months, one instant every 45 days over 2000-2040 forwards and backwards; four zones again with the process-local zone (time.Local) set west and east of Greenwich; fixed-offset stamps at each process-local zone's own offsets, dated in both seasons and before rule changes, under 5 process-local zones x 3 clock answers (real, winter, summer) through the clock seam; names of every length 0..64 with 4 patterns and every septet value at every position for lengths <= 17, both name functions. Oracle: unit tables of TS 24.008 10.5.7.4/10.5.7.4a (decode(encode(d)) = d for representable d, <= d always), Table 9.11.4.14.1 unit codes and 16-bit big-endian values, semi-octet BCD time coding with sign bit, GSM 7-bit unpacking per TS 23.038 returning exactly the name's septets from ceil(7n/8) octets with (8 - 7n mod 8) mod 8 spare bits."
 		},
 		Assumptions: []string{
 			"zone/DST combinations whose effective offset crosses zero or leaves ±19:45 are outside the stated domain (no such zone exists; counted, not asserted)",
